@@ -4,7 +4,7 @@
 From Coq Require Import List Arith Bool NArith.
 Import ListNotations.
 From PV Require Import C18.Types C18.Gen C18.Model C18.Join C18.LimitProofs C18.JoinStmt C18.JoinCmt
-  C18.JoinAll C18.Witness.
+  C18.JoinAll C18.Witness C18.TextProofs C18.TextWitness.
 
 (* 1. no output line is longer than the limit (per line and for whole texts), for every limit *)
 Theorem C18_limit_respected : forall L l ls,
@@ -114,3 +114,57 @@ Print Assumptions C18_nonvacuous.
 Example C18_nonvacuous_text : exists t t', process_text 60 t = TOk t' /\ t <> t' /\ process_text 60 t' = TOk t'.
 Proof. exact example_text. Qed.
 Print Assumptions C18_nonvacuous_text.
+
+(* ---- texts (lists of lines processed line by line, as the implementation does) ------------- *)
+Theorem C18_limit_respected_text_all : forall L ls out,
+  process_lines L ls = Ok out -> Forall (fun x => length x <= L) out.
+Proof. exact limit_respected_lines_. Qed.
+Print Assumptions C18_limit_respected_text_all.
+
+Theorem C18_idempotent_lines : forall L ls out, process_lines L ls = Ok out -> process_lines L out = Ok out.
+Proof. exact idempotent_lines_. Qed.
+Print Assumptions C18_idempotent_lines.
+
+(* join is compositional over complete continuation groups: if the text is a concatenation of
+   groups (each a complete group of input lines paired with the output lines produced for it; both
+   non-empty, neither starting with the comment marker `!& `, both well formed with equivalent
+   joins - `group_okb`, decidable), then the whole output joins to something equivalent to the
+   whole input.  A group may consist of several input lines (a directive or statement that is
+   already continued). *)
+Theorem C18_join_groups : forall gs, forallb group_okb gs = true ->
+  exists R R', join (concat (map fst gs)) = Some R /\ join (concat (map snd gs)) = Some R' /\ jequiv R' R = true.
+Proof. exact join_groups_. Qed.
+Print Assumptions C18_join_groups.
+
+(* text-level join theorem, partial: every input line is safe on its own (each line is a complete
+   group) and does not start with the marker `!& `; premise on the output (decidable): the first
+   output line of each input line does not start with `!& ` either.
+   FULL statement (false, see the *_refuted theorems; and not proved for texts whose lines are
+   themselves continued, which are covered group-wise by C18_join_groups):
+     forall L ls out R, process_lines L ls = Ok out -> join ls = Some R -> exists R', join out = Some R' /\ jequiv R' R = true *)
+Theorem C18_join_text_partial : forall L ls out,
+  process_lines L ls = Ok out ->
+  forallb (fun l => safe l && no_marker l) ls = true ->
+  (forall l o, In l ls -> process_line L l = Ok o -> starts_ok o = true) ->
+  exists R R', join ls = Some R /\ join out = Some R' /\ jequiv R' R = true.
+Proof. exact join_text_partial_. Qed.
+Print Assumptions C18_join_text_partial.
+
+(* non-vacuity: a directive already split over two lines whose `!$omp&` continuation line (107
+   characters) is longer than the limit 60, a long call and a long comment: the three groups satisfy
+   group_okb and their outputs are exactly what the limiter produces for the 4-line text (8 lines) *)
+Example C18_nonvacuous_split_directive :
+  forallb group_okb (ex_groups 60) = true /\
+  process_lines 60 [d1; d2; s1; c1] = Ok (concat (map snd (ex_groups 60))) /\
+  concat (map fst (ex_groups 60)) = [d1; d2; s1; c1] /\
+  (60 <? length d2) = true /\ iprefixb sent_omp (lstrip d2) = true /\
+  length (concat (map snd (ex_groups 60))) = 8.
+Proof. exact text_nonvacuous_. Qed.
+Print Assumptions C18_nonvacuous_split_directive.
+
+Example C18_nonvacuous_text_allsafe :
+  forallb (fun l => safe l && no_marker l) [s1; c1; s1] = true /\
+  forallb (fun l => starts_ok (out_of 60 [l])) [s1; c1] = true /\
+  length (out_of 60 [s1; c1; s1]) = 6.
+Proof. exact text_allsafe_nonvacuous_. Qed.
+Print Assumptions C18_nonvacuous_text_allsafe.
